@@ -613,6 +613,13 @@ func runC18(c *Check) {
 	c.ruleFreshSessionPerConnect("R3", fHash)
 	c.ruleHandshakeCompleteAfterReadyWritten("R8", fHSC, c.P.Field("client", "RemoteClient", "handshakeCompleteChannel"))
 	c.ruleConnectionFlagsReset("R9", map[string]*types.Var{"accepted": fAccepted, "handshakeComplete": fHSC})
+	// the functions that write to the connection are this property's mechanism ("never reported as sent
+	// without having been written"): the shared discipline rules run over them too
+	for _, k := range []string{"client.(*RemoteClient).sendDirect", "client.(*RemoteClient).sendMessage", "client.sendMessages", "client.(*RemoteClient).Ready"} {
+		if fn := c.P.Fn(k); fn != nil {
+			c.Touch(fn)
+		}
+	}
 
 	// ---- R5 IsHandshakeType table
 	if fd := findFuncDecl(p, "", "IsHandshakeType"); fd != nil {
